@@ -1,10 +1,16 @@
 (* C08 -- references to other Quadlet units resolve to real names and add dependencies.
    PARTIAL: proved are the links of the chain -- the look-up handlers use the table's names and add Requires=/After= on the
    table's service file (or fail naming the missing file); converting a volume / network / image stores the documented object
-   name in the table; the stored service name is the documented one; units are processed in type-priority order.  The end-to-end
-   statement over arbitrary reference graphs is decided by the direct oracle plus correspondence of the Process model. *)
+   name in the table; the stored service name is the documented one; units are processed in type-priority order.
+   Over whole runs (second session): C08_names_along_the_run -- once a volume / network / image unit has been converted, every later
+   conversion of the run sees, under that unit's file name, exactly the object name its own conversion computed and the service file
+   name its own conversion returned (file names distinct, as C13 guarantees); C08_volume_creates / C08_network_creates -- that object
+   name is the one the unit's own ExecStart creates; C08_lower_priority_first -- referenced volumes, networks and images come before
+   the containers, pods, kube and build units that can refer to them.  Together with the handler theorems (which use exactly the
+   table's object name and service file name) this is the chain from a reference to the real names.  The reading of a Volume= /
+   Mount= / Network= value into a reference is decided by the direct oracle plus correspondence of the Process model. *)
 From Coq Require Import Sorting.Sorted Sorting.Permutation.
-From QV Require Import Model.Base Generated.Tables Model.Unit Model.Path Model.Names Model.Convert Model.Process Spec.Names Proofs.C08.
+From QV Require Import Model.Base Generated.Tables Model.Unit Model.Path Model.Names Model.Convert Model.Quote Model.Process Spec.Names Proofs.C07 Proofs.C08 Proofs.C09run Proofs.C08run.
 
 Theorem C08_storage_source : forall unit_path svc src tbl check_image,
   starts_with [cDOT] src = false -> starts_with [cSLASH] src = false ->
@@ -52,3 +58,28 @@ Proof. exact (conj volume_sets_table (conj network_sets_table (conj image_sets_t
 
 Theorem C08_sorted : forall l, Sorted.StronglySorted (fun a b => prio a <= prio b)%N (sort_units l) /\ Permutation.Permutation l (sort_units l).
 Proof. intros l. split; [apply sort_units_sorted|apply sort_units_perm]. Qed.
+
+(* ---- whole runs ---- *)
+(* created_name x: volume_name / network_name / image_resource of x's own unit; rname / sfile: object name and service file name of a table entry;
+   final_tbl l tbl0: the table after converting the units of l one after the other *)
+Theorem C08_names_along_the_run : forall podman exists_path kill_fixed mount_nl l1a x l1b tbl0 svc sp t',
+  NoDup (map (fun z => file_name (l_path z)) (l1a ++ x :: l1b)) ->
+  i_type (l_info x) = TVolume \/ i_type (l_info x) = TNetwork \/ i_type (l_info x) = TImage ->
+  convert_one podman exists_path kill_fixed mount_nl (l_unit x) (l_path x) (i_type (l_info x))
+              (final_tbl podman exists_path kill_fixed mount_nl l1a tbl0) = COk (svc, sp, t') ->
+  exists K name, file_name (l_path x) = Some K /\ created_name x = COk name /\
+    rname (final_tbl podman exists_path kill_fixed mount_nl (l1a ++ x :: l1b) tbl0) K = Some name /\
+    sfile (final_tbl podman exists_path kill_fixed mount_nl (l1a ++ x :: l1b) tbl0) K = Some sp.
+Proof. exact names_along_the_run. Qed.
+
+Theorem C08_volume_creates : forall podman u path tbl svc sp t', from_volume podman u path tbl = COk (svc, sp, t') ->
+  exists name before pre, volume_name u path = COk name /\ vals svc SEC_S (s2l "ExecStart") = before ++ [quote_words (pre ++ [name])].
+Proof. exact volume_creates. Qed.
+
+Theorem C08_network_creates : forall podman u path tbl svc sp t', from_network podman u path tbl = COk (svc, sp, t') ->
+  exists name before pre, network_name u path = COk name /\ vals svc SEC_S (s2l "ExecStart") = before ++ [quote_words (pre ++ [name])].
+Proof. exact network_creates. Qed.
+
+Theorem C08_lower_priority_first : forall l1 y l2 x,
+  Sorted.StronglySorted (fun a b => prio a <= prio b)%N (l1 ++ y :: l2) -> In x (l1 ++ y :: l2) -> (prio x < prio y)%N -> In x l1.
+Proof. exact lower_priority_first. Qed.
